@@ -7,6 +7,7 @@ submitting goroutine that performs the queued `Go` calls in order):
   release <id>                     let running task <id> leave its function
   wait                             call Wait() in a new goroutine
   k                                number of tokens in the channel at quiescence
+  waitt <ms>                       call Wait(<ms> milliseconds), ms > 0, and let it return
 The answer to an op is the sequence of observable events it causes, in order
 (`start i`, `finish i`, `handler v`, `waitret`), or `blocked` / `queued` / `waiting`
 when nothing observable happens.  Internal steps (Add, Done, channel receive) are
@@ -17,6 +18,7 @@ the verified machine are taken; an event the machine cannot perform is answered
 -/
 import Golib.Proto
 import Golib.Model.C19Lim
+import Golib.Model.C19Rec
 
 namespace Golib.C19
 open Golib.Proto
@@ -52,13 +54,39 @@ def wake (p : Player) (ev : List String) : Player × List String :=
 def showEvents (ev : List String) (dflt : String) : String :=
   if ev.isEmpty then dflt else " | ".intercalate ev
 
+/-! Panic values travel as tokens: an integer `n`, `nil` (Go: `panic(nil)`, which the
+handler sees as `*runtime.PanicNilError`), `err:n` (an `error`), `cus:n` (a value of a
+harness-defined struct type), and the names in `specialVals` (typed nil pointer / map /
+slice / func / chan, run-time errors from a nil-map write, an index out of range, a nil
+dereference, a struct wrapping a nil error).  The machine carries them as integers through
+the injective coding `n ↦ 4n`, `err:n ↦ 4n+1`, `cus:n ↦ 4n+2`, `specialVals[k] ↦ 4k+3`
+(the machine never looks into a panic value). -/
+def specialVals : List String :=
+  ["nil", "tnp", "nmap", "nslice", "nfunc", "nchan", "rtmap", "rtidx", "rtnil", "wrapnil"]
+
+def encVal? (s : String) : Option Int :=
+  match specialVals.idxOf? s with
+  | some k => some (4 * (k : Int) + 3)
+  | none => match s.splitOn ":" with
+    | ["err", n] => (fun (k : Nat) => 4 * (k : Int) + 1) <$> n.toNat?
+    | ["cus", n] => (fun (k : Nat) => 4 * (k : Int) + 2) <$> n.toNat?
+    | [n] => (fun (k : Int) => 4 * k) <$> n.toInt?
+    | _ => none
+
+def decVal (v : Int) : String :=
+  if v % 4 = 3 then specialVals.getD (v / 4).toNat ("?" ++ toString v)
+  else if v % 4 = 0 then toString (v / 4)
+  else if v % 4 = 1 then "err:" ++ toString (v / 4)
+  else if v % 4 = 2 then "cus:" ++ toString (v / 4)
+  else "?" ++ toString v
+
 def parseOutcome? : List String → Option Outcome
   | ["ok"] => some .ok
-  | ["panic", v] => Outcome.panic <$> v.toInt?
+  | ["panic", v] => Outcome.panic <$> encVal? v
   | _ => none
 
 def hvalStr : HVal → String
-  | .val v => "handler " ++ toString v
+  | .val v => "handler " ++ decVal v
   | .cleanupPanic => "handler cleanup-panic"
 
 def playOp (p : Player) (ts : List String) : Player × String :=
@@ -101,6 +129,14 @@ def playOp (p : Player) (ts : List String) : Player × String :=
       let (p', ev) := wake { p with s := s' } []
       (p', showEvents ev "waiting")
   | ["k"] => (p, toString p.s.k)
+  | ["waitt", d] =>
+    -- `Wait(d)`, d > 0 milliseconds, called and returned (idle or expired): no effect
+    match d.toNat? with
+    | some d => if d = 0 then (p, "bad-op") else
+      match p.s.step .waitTimed with
+      | some s' => ({ p with s := s' }, "timedwait")
+      | none => (p, "not-enabled")
+    | none => (p, "bad-op")
   | _ => (p, "bad-op")
 
 def playOps : Player → List String → List String
@@ -149,10 +185,11 @@ def acceptEv (s : St) (ts : List String) : Option St :=
       let t ← s.tasks[i]?
       if t.pc ≠ .running then none else s.step (.adv i)
   | ["handler", v] => do
-      let v ← v.toInt?
+      let v ← encVal? v
       let i ← findIdx? s.tasks fun t => t.pc == .recovering && t.outcome == .panic v
       s.step (.adv i)
   | ["waitcall"] => s.step .waitCall
+  | ["timedwait"] => s.step .waitTimed
   | ["waitret"] =>
       let s' := settle s
       (List.range s'.waiters.length).findSome? fun j => s'.step (.waitRet j)
@@ -165,8 +202,34 @@ def acceptAll : St → List String → List String
     | some s' => "ok" :: acceptAll s' rest
     | none => "not-enabled" :: acceptAll s rest
 
+/-! ### `Recover` used directly
+Header `@ C19 rec`; op `rec <fn> <cleanup>…` with `<fn>`, `<cleanup>` ∈ `ok` | `p:<value token>`;
+answer: `handled=[…] ran=[…]` (handler calls in order: `v:<token>` or `c:<token>@<index>`;
+indices of the cleanups that were called). -/
+
+def parseRecTok? (s : String) : Option Outcome :=
+  if s = "ok" then some .ok
+  else match s.splitOn ":" with
+    | "p" :: rest => Outcome.panic <$> encVal? (":".intercalate rest)
+    | _ => none
+
+def rvalStr : RVal → String
+  | .val v => "v:" ++ decVal v
+  | .cleanupPanic v i => "c:" ++ decVal v ++ "@" ++ toString i
+
+def recOp (ts : List String) : String :=
+  match ts with
+  | "rec" :: fn :: cl =>
+    match parseRecTok? fn, cl.mapM parseRecTok? with
+    | some fn, some cl =>
+      let r := recoverRun fn cl
+      "handled=[" ++ " ".intercalate (r.handled.map rvalStr) ++ "] ran=" ++ showNats r.ran
+    | _, _ => "bad-op"
+  | _ => "bad-op"
+
 def runCase (hdr : List String) (ops : List String) : List String :=
   match hdr with
+  | ["rec"] => "ok" :: ops.map fun l => recOp (toks l)
   | ["trace", limit] =>
     match limit.toInt? with
     | some limit => ("cap " ++ toString (limitOf limit)) :: acceptAll (newLimiter limit) ops
